@@ -244,16 +244,18 @@ def queries(tier):
     qs.append(Query("covers_3slots", f3, 32 * 3 + 2, asserts=[], hints=hints, timeout=900, split=False,
                     covers=["ep1_data", "ep3_data", "ep2_ack", "ep0_data", "stalled_byte"], desc="witnesses"))
     # one solver process per cube of per-slot (kind, flag) choices; endpoints 0..3, addresses, data, OUT length symbolic
-    if tier == "quick":
-        cubes = list(slot_cubes(3, "SIO", first="SIO"))
-    else:
-        cubes = list(slot_cubes(3, "SsIiOoN"))
-    for name, layer in cubes:
-        qs.append(Query(f"bmc_3slots_{name}", f3, 32 * 3 + 2, layer=layer, covers=[], timeout=900, split=False,
+    f2 = lambda: TxHarness(2, free_ready=True)
+    for name, layer in slot_cubes(2, "SIO" if tier == "quick" else "SsIiOoN"):
+        qs.append(Query(f"bmc_2slots_{name}", f2, 32 * 2 + 2, layer=layer, covers=[], timeout=900, split=False,
+                        desc=f"2 transactions {name} against control + bulk IN/OUT + status endpoints, tx_ready free"))
+    cubes3 = [c for c in slot_cubes(3, "SIO") if tier != "quick" or c[0] in ("SII", "SIO", "SOI", "IOI")]
+    for name, layer in cubes3:
+        qs.append(Query(f"bmc_3slots_{name}", f3, 32 * 3 + 2, layer=layer, covers=[], timeout=1800, split=False,
                         desc=f"3 transactions {name} against control + bulk IN/OUT + status endpoints, tx_ready free"))
     if tier == "thorough":
         for name, layer in slot_cubes(4, "SIO", first="S"):
-            qs.append(Query(f"bmc_4slots_{name}", f4r, 32 * 4 + 2, layer=layer, covers=[], timeout=900, split=False,
-                            desc=f"4 transactions {name}, tx_ready = 1"))
+            if name[1:] in ("III", "IOI", "OII", "SII", "IIO", "ISI"):
+                qs.append(Query(f"bmc_4slots_{name}", f4r, 32 * 4 + 2, layer=layer, covers=[], timeout=1800, split=False,
+                                required=False, desc=f"4 transactions {name}, tx_ready = 1"))
     qs.append(Query("cosim", f3, 0, kind="cosim", cosim_cycles=100 if tier == "quick" else 400))
     return qs
